@@ -83,6 +83,14 @@ func main() {
 			os.Exit(2)
 		}
 		props.ProbeLookahead(p)
+	case "probe-ws":
+		cfg, _ := props.ConfigByName("default")
+		p, err := an.Load("/repo", cfg)
+		if err != nil {
+			fmt.Println(err)
+			os.Exit(2)
+		}
+		props.ProbeWriteSets(p)
 	case "whywrites":
 		cmdWhy(os.Args[2:])
 	case "dump":
